@@ -309,7 +309,7 @@ class System:
         for x in xs:
             self.engine.receiver.add_data(x)
 
-    def run_main_pass(self, payload, put=True):
+    def run_main_pass(self, payload, put=True, extra=0):
         """the real `run()` loop: one incoming message, then the loop ends (closed flag set by a stub subscriber)."""
         d = self.dist
         d._closed = False
@@ -318,9 +318,42 @@ class System:
             d._subscribers.append(self._closer)
         if put:
             d._queue_incoming.put_nowait(d._incoming_from_json(payload))
+            for _ in range(extra):      # more accepted messages are waiting when the component is closed
+                d._queue_incoming.put_nowait(d._incoming_from_json(payload))
         try:
             d.run()
         finally:
+            d._closed = False
+            d._running = True
+
+    def run_main_closed_with_backlog(self, payload):
+        """the real `run()` loop, closed by a controller while an accepted message is still waiting in the incoming queue:
+        the component is closed (and the message arrives) just before the loop looks at the closed flag."""
+        d = self.dist
+        d._closed = False
+        d._running = False
+        me = threading.get_ident()
+        seen = {'n': 0}
+        old = self.rec.hooks.get(me)
+
+        def hook(lock, held):
+            if lock.name().endswith('._lock_local') and not held:
+                seen['n'] += 1
+                if seen['n'] == 2:          # 1st: the prologue of run(); 2nd: the loop's first look at the closed flag
+                    d._queue_incoming.put_nowait(d._incoming_from_json(payload))
+                    d._closed = True
+            if old is not None:
+                old(lock, held)
+        self.rec.hooks[me] = hook
+        try:
+            d.run()
+        finally:
+            if old is None:
+                self.rec.hooks.pop(me, None)
+            else:
+                self.rec.hooks[me] = old
+            while not d._queue_incoming.empty():
+                d._queue_incoming.get_nowait()
             d._closed = False
             d._running = True
 
@@ -530,6 +563,7 @@ def _ops():
         'feeder_add':       ('feeder', lambda s: None, lambda s, p: (s.feed(7), s.engine.receiver.size())),
         'dist_main_updated':   ('dist_main', lambda s: None, lambda s, p: s.run_main_pass(p['updated'])),
         'dist_main_completed': ('dist_main', lambda s: None, lambda s, p: s.run_main_pass(p['completed'])),
+        'dist_main_closed_with_backlog': ('dist_main', lambda s: None, lambda s, p: s.run_main_closed_with_backlog(p['updated'])),
         'dist_main_existing':  ('dist_main', lambda s: (s.feed(1), s.engine.update(), setattr(s, 'own', s.own_payload())),
                                 lambda s, p: s.run_main_pass(s.own)),
         'outgoing_resync':  ('dist_outgoing', lambda s: setattr(s, 'now', 10 ** 6), lambda s, p: s.outgoing_pass()),
@@ -740,16 +774,22 @@ RecordingRLock.__init__ = _tracking_init
 
 
 def schedule_for_cycle(cycle, edge_ops):
-    """one thread per edge (a_i -> a_{i+1}); thread i must be blocked by thread i+1, so thread i holds a_i … no:
-    thread i holds a_i and wants a_{i+1}, which is held by thread i+1."""
-    steps = []
+    """one thread per edge (a_i -> a_{i+1}): thread i holds a_i and wants a_{i+1}, which is held by thread i+1.  Among the
+    operations that exhibited each edge, pick one thread per ROLE where the edges allow it (a deployment has one engine
+    loop, one distributed main thread, …)."""
+    choices = []
     for i, a in enumerate(cycle):
         b = cycle[(i + 1) % len(cycle)]
         ops = edge_ops.get((a, b))
         if not ops:
             return None
-        steps.append({'op': sorted(ops)[0], 'holds': a, 'wants': b})
-    return steps
+        choices.append([(o, a, b) for o in sorted(ops)[:6]])
+    best = None
+    for combo in itertools.product(*choices):
+        score = len({OPS[o][0] for o, _, _ in combo})
+        if best is None or score > best[0]:
+            best = (score, combo)
+    return [{'op': o, 'holds': a, 'wants': b} for o, a, b in best[1]]
 
 
 def force_cycle(payloads, variant, cycle, edge_ops, notes):
